@@ -95,4 +95,10 @@ MUTANTS = {
         "invalid_still_dispatched": [("_listener.py", "            return\n\n        if not msg.is_query():", "            pass\n\n        if not msg.is_query():")],
         "read_others_unguarded": [("_protocol/incoming.py", "            try:\n                self._read_others()\n            except DECODE_EXCEPTIONS:", "            try:\n                self._read_others()\n            except IncomingDecodeError:")],
     },
+    "C16": {
+        "guard_disabled": [("_listener.py", "            self.data == data\n", "            False and self.data == data\n")],
+        "guard_interval_zero": [("const.py", "_DUPLICATE_PACKET_SUPPRESSION_INTERVAL = 1000", "_DUPLICATE_PACKET_SUPPRESSION_INTERVAL = 0")],
+        "guard_skips_queries": [("_listener.py", "            and not self.last_message.has_qu_question()", "            and not self.last_message.is_query()")],
+        "guard_skips_responses": [("_listener.py", "            and not self.last_message.has_qu_question()", "            and self.last_message.is_query() and not self.last_message.has_qu_question()")],
+    },
 }
